@@ -375,9 +375,11 @@ def find_children_for_parent(var_collector: Collector, parent_node: ParentNode, 
     :return: list of child nodes
     """
     if is_dict_like(variable_type):
-        return process_dict_breadth_first(parent_node, variable_type.__name__, value)
+        return process_dict_breadth_first(parent_node, variable_type.__name__, value) \
+            + process_own_attributes(parent_node, variable_type, value)
     elif is_list_like(variable_type):
-        return process_list_breadth_first(var_collector, parent_node, builtin_base(variable_type).__iter__(value))
+        return process_list_breadth_first(var_collector, parent_node, builtin_base(variable_type).__iter__(value)) \
+            + process_own_attributes(parent_node, variable_type, value)
     elif isinstance(value, Exception):
         # what it was raised with, and the attributes an application exception carries (a code, the offending record)
         nodes = process_list_breadth_first(var_collector, parent_node, value.args)
@@ -415,6 +417,23 @@ def process_dict_breadth_first(parent_node, type_name, value, func=lambda x, y: 
     return [Node(value=NodeValue(func(type_name, safe_str(key)), dict.__getitem__(value, key), safe_str(key)),
                  parent=parent_node)
             for key in list(builtin_base(type(value)).keys(value)) if dict.__contains__(value, key)]
+
+
+def process_own_attributes(parent_node, variable_type: type, value) -> List[Node]:
+    """
+    Process the attributes an application class derived from a builtin container carries next to its elements.
+
+    :param (ParentNode) parent_node: the node that represents the container, the parent for the returned nodes
+    :param (type) variable_type: the type of the container
+    :param (any) value: the container
+    :return (list): the collected child nodes (none for the builtin containers themselves)
+    """
+    if variable_type is builtin_base(variable_type):
+        return []
+    attributes = getattr(value, '__dict__', None)
+    if not isinstance(attributes, dict):
+        return []
+    return process_dict_breadth_first(parent_node, variable_type.__name__, attributes, correct_names)
 
 
 def process_slots_breadth_first(parent_node, variable_type: type, value) -> List[Node]:
